@@ -18,22 +18,29 @@ REPLAY_KIND = 'input'
 EXHAUSTIVE = {'quick': False, 'thorough': False}
 RULE = ('a fixture class with one column per column type (String, String(length), Unicode, Int/TinyInt/SmallInt/MediumInt/BigInt, '
         'Bool, Float, DateTime, Date, Time, Timestamp, Decimal(10,3), Decimal(20,2), Currency, DecimalString, DecimalString(quantize), '
-        'Enum, BLOB, Pickle, Uuid, JSON, ForeignKey) in three variants (eager, cacheValues=False, lazyUpdate) on sqlite :memory:; '
+        'Enum, BLOB, Pickle, Uuid, JSON, ForeignKey to an int-keyed and to a string-keyed class) in three variants (eager, cacheValues=False, '
+        'lazyUpdate) and two class shapes (one plain class; the same columns split over a plain base class and a plain subclass, instances of '
+        'the subclass) on sqlite :memory:; '
         'per column type a boundary-heavy in-domain stream (quotes, backslashes, %, empty, astral characters, int64 ends, year 1/9999, '
         'microseconds, leap days, trailing zeros, -0.0, subnormals, random-bit doubles, empty/high/NUL bytes, long strings, nested json) '
         'and an out-of-domain stream (every other Python value kind for every column, NUL/surrogates, ints beyond int64, inf/nan, '
-        'tz-aware times, decimals beyond the declared precision, non-members, strings for date/decimal columns, malformed strings); '
+        'tz-aware times, decimals beyond the declared precision, non-members, strings for date/decimal columns, malformed strings, '
+        'timedeltas negative / zero / under a day / a day and more for the TimeCol, and one or two values of EVERY modelled Python type '
+        'offered to EVERY column); '
         'each value written through create / attribute assignment / set() (followed by syncUpdate() on the lazy variant) and read from '
         'the writer, after a select refreshed the writer, after expire(), from a fresh get() and from a fresh select row, plus the raw '
         'stored value + typeof() and select(col == v) / selectBy(col=v). Non-trivial = the value is not None and the stored text/number '
         'differs from a plain copy of the input (escaping, formatting, affinity conversion) or the write is refused; distinct = distinct '
-        '(column, value, write path, variant).')
+        '(column, value, write path, variant, class shape).  The corpus holds the witnesses of open and fixed findings and of the filed seeds '
+        '(numeric-looking string ids, falsy values of every converting column type), each through all nine write path x variant pairs.')
 EXPLANATION = ('Theorems C01_* (Coq, all strings / ints / dates / decimals / byte strings / trees, every write and read path) over a model '
                'of validators, converters, the sqlite literal rules, column affinity and the driver, with format tables REGENERATED from '
                'converters.py/col.py on this run; correspondence: the model evaluated by vm_compute predicts the exception class, the '
                'writer\'s cached value, the raw stored value and storage class, and what every database read returns, for every case; '
                'oracle: read == written with the same type on every read path and the equality query finds the row (in-domain), '
-               'rejected or identical on every read path (out-of-domain).')
+               'rejected or identical on every read path (out-of-domain), equal to the documented normalisation where one exists '
+               '(date/time crossings, bool/int/float/Decimal/str crossings that preserve the value) and refused where none exists '
+               '(a negative or day-long timedelta in a TimeCol).')
 TRUSTED_BASE = [
     'Coq 8.16.1 kernel + vm_compute (examples, correspondence); no native_compute',
     'tools/py2coq/gen_columns.py (extraction of the converter format strings, strptime formats and sqlite column types)',
@@ -103,7 +110,7 @@ def enc(x):
     if type(x) is dict:
         return ['dict', [[enc(k), enc(v)] for k, v in x.items()]]
     if hasattr(x, 'sqlmeta') and hasattr(x, 'id'):
-        return ['obj', x.id]
+        return ['obj', x.id] if isinstance(x.id, int) else ['objs', [ord(c) for c in x.id]]
     return ['other', type(x).__name__]
 
 
@@ -150,7 +157,10 @@ def dec(v, other=None):
     if k == 'dict':
         return {dec(a, other): dec(b, other) for a, b in v[1]}
     if k == 'obj':
-        return other.get(v[1]) if other is not None else ('obj', v[1])
+        return other['obj'].get(v[1]) if other is not None else ('obj', v[1])
+    if k == 'objs':
+        sid = ''.join(chr(c) for c in v[1])
+        return other['objs'].get(sid) if other is not None else ('objs', sid)
     raise ValueError('cannot decode %r' % (v,))
 
 
@@ -183,11 +193,15 @@ COLUMNS = [
     ('uu', 'UuidCol', {}),
     ('js', 'JSONCol', {}),
     ('fk', 'ForeignKey', {}),
+    ('fks', 'ForeignKey', {'to': 'S'}),          # to a class with sqlmeta.idType = str
 ]
 COLNAMES = [c[0] for c in COLUMNS]
 VARIANTS = ['E', 'N', 'L']          # eager, cacheValues=False, lazyUpdate
 WPATHS = ['create', 'setattr', 'set']
 N_OTHER = 3                         # rows of the referenced class (ids 1..3)
+STR_IDS = ['007', '42', '1.50', 'abc', ' 7', '1e3', '-0', 'x y']     # ids of the string-keyed referenced class
+INST_IDS = STR_IDS                                                  # ... all of them also serve as instances
+SHAPES = ['P', 'S']                 # a plain class; a plain subclass (odd columns) of a plain base class (even columns)
 
 _FIX = {}
 
@@ -206,36 +220,59 @@ def fixture(skip=()):
     other.createTable()
     for k in range(N_OTHER):
         other(n=k)
-    classes = {}
-    for var in VARIANTS:
-        attrs = {'_connection': conn}
-        for name, ctor, kw in COLUMNS:
-            kw = dict(kw)
-            if name in skip:
-                continue
-            if ctor == 'ForeignKey':
-                attrs[name] = sqlobject.ForeignKey(tag + 'Other', default=None)
-            else:
-                attrs[name] = getattr(sqlobject, ctor)(default=None, **kw)
 
+    class strmeta:
+        idType = str
+    others = type(tag + 'OtherS', (SQLObject,), {'_connection': conn, 'sqlmeta': strmeta, 'n': sqlobject.IntCol(default=0)})
+    others.createTable()
+    for sid in STR_IDS:
+        others(id=sid)
+
+    def column(name, ctor, kw):
+        kw = dict(kw)
+        if ctor == 'ForeignKey':
+            return sqlobject.ForeignKey(tag + ('OtherS' if kw.get('to') == 'S' else 'Other'), default=None)
+        return getattr(sqlobject, ctor)(default=None, **kw)
+
+    def meta(var):
         class sqlmeta:
             cacheValues = (var != 'N')
             lazyUpdate = (var == 'L')
-        attrs['sqlmeta'] = sqlmeta
+        return sqlmeta
+    cols = [c for c in COLUMNS if c[0] not in skip]
+    classes = {}
+    for var in VARIANTS:
+        attrs = {'_connection': conn, 'sqlmeta': meta(var)}
+        for name, ctor, kw in cols:
+            attrs[name] = column(name, ctor, kw)
         cls = type(tag + var, (SQLObject,), attrs)
         cls.createTable()
-        classes[var] = cls
+        classes[(var, 'P')] = cls
+        # the same columns split over a plain base class and a plain subclass of it
+        battrs = {'_connection': conn, 'sqlmeta': meta(var)}
+        for name, ctor, kw in cols[0::2]:
+            battrs[name] = column(name, ctor, kw)
+        base = type(tag + var + 'Base', (SQLObject,), battrs)
+        base.createTable()
+        sattrs = {}
+        for name, ctor, kw in cols[1::2]:
+            sattrs[name] = column(name, ctor, kw)
+        sub = type(tag + var + 'Sub', (base,), sattrs)
+        sub.createTable()
+        classes[(var, 'S')] = sub
     raw = conn.getConnection()
     decl = {}
-    for row in raw.execute('PRAGMA table_info(%s)' % classes['E'].sqlmeta.table):
-        decl[row[1]] = row[2]
-    _FIX.update(conn=conn, other=other, classes=classes, raw=raw, decl=decl, skip=tuple(skip))
+    for key, cls in classes.items():
+        decl[key] = {}
+        for row in raw.execute('PRAGMA table_info(%s)' % cls.sqlmeta.table):
+            decl[key][row[1]] = row[2]
+    _FIX.update(conn=conn, other={'obj': other, 'objs': others}, classes=classes, raw=raw, decl=decl, skip=tuple(skip))
     return _FIX
 
 
 def attr_of(col):
     """the attribute that carries the raw column value (fkID for the foreign key)"""
-    return 'fkID' if col == 'fk' else col
+    return {'fk': 'fkID', 'fks': 'fksID'}.get(col, col)
 
 
 # ---------------------------------------------------------------- stdlib / engine codec tables (never through SQLObject)
@@ -304,7 +341,7 @@ def walk(x, fn):
             walk(v, fn)
 
 
-def codec_tables(v):
+def codec_tables(v, col=None, extra_texts=()):
     """every stdlib/engine codec entry the model can need for the input value v"""
     import base64
     import decimal
@@ -324,6 +361,7 @@ def codec_tables(v):
             uuids.add(x.int)
             ints.add(x.int)
     walk(v, see)
+    texts.update(extra_texts)
     if type(v) in (str, bytes):      # a string handed to a decimal / key column is parsed
         try:
             d = decimal.Decimal(v if type(v) is str else v.decode('ascii'))
@@ -393,8 +431,10 @@ def codec_tables(v):
         'float_of': float_of,
         'float_of_int': float_of_int,
         'uuid': [[str(n), [ord(c) for c in str(uuid.UUID(int=n))]] for n in sorted(uuids)],
-        'b64': [], 'pickle': [], 'json': [],
+        'b64': [], 'pickle': [], 'json': [], 'str': [],
     }
+    if col == 'fks' and v is not None and type(v) is not str:
+        tab['str'].append([enc(v), [ord(c) for c in str(v)]])
     blobs = []
     if type(v) is bytes:
         blobs.append(v)
@@ -430,15 +470,15 @@ def attempt(fn):
 
 def run_one(F, c):
     conn, raw = F['conn'], F['raw']
-    cls = F['classes'][c['cls']]
+    cls = F['classes'][(c['cls'], c.get('shape', 'P'))]
     col = c['col']
     attr = attr_of(col)
     dbname = cls.sqlmeta.columns[attr].dbName
     table = cls.sqlmeta.table
     v = dec(c['v'], F['other'])
     # the foreign key takes instances through the `fk` attribute and ids through `fkID`
-    wattr = col if (col == 'fk' and c['v'][0] == 'obj') else attr
-    o = {'decl': F['decl'].get(dbname)}
+    wattr = col if (col in ('fk', 'fks') and c['v'][0] in ('obj', 'objs')) else attr
+    o = {'decl': F['decl'][(c['cls'], c.get('shape', 'P'))].get(dbname)}
     conn.cache.clear()
     nrows = raw.execute('SELECT COUNT(*) FROM %s' % table).fetchone()[0]
     x = None
@@ -527,10 +567,11 @@ def run_impl(cases):
         try:
             if c['col'] in F.get('skip', ()):
                 out.append({'w': ['raise', 'Fixture' + F.get('skip_reason', 'Error')], 'rows_added': 0, 'decl': None,
-                            'codecs': codec_tables(None)})
+                            'codecs': codec_tables(None, c['col'])})
                 continue
             o = run_one(F, c)
-            o['codecs'] = codec_tables(dec(c['v'], F['other']) if c['v'][0] != 'obj' else None)
+            o['codecs'] = codec_tables(dec(c['v'], F['other']) if c['v'][0] not in ('obj', 'objs') else None, c['col'],
+                                       [''.join(chr(x) for x in c['v'][1])] if c['v'][0] == 'objs' else ())
         except Exception as e:
             import traceback
             o = {'crash': '%s: %s\n%s' % (type(e).__name__, e, traceback.format_exc()[-600:])}
@@ -591,6 +632,8 @@ def coq_val(v):
         return '(PDict [%s])' % '; '.join('(%s, %s)' % (coq_val(a), coq_val(b)) for a, b in v[1])
     if k == 'obj':
         return '(PObj %s)' % zlit(v[1])
+    if k == 'objs':
+        return '(PObjS %s)' % slit(v[1])
     if k == 'decs':
         return '(PDecSpecial %s %s)' % (blit(v[1]), blit(v[2]))
     if k == 'other':
@@ -650,7 +693,7 @@ def coq_coltype(col):
             'BigIntCol': 'TBigInt', 'BoolCol': 'TBool', 'FloatCol': 'TFloat', 'DateTimeCol': 'TDateTime',
             'DateCol': 'TDate', 'TimeCol': 'TTime', 'TimestampCol': 'TTimestamp', 'CurrencyCol': 'TCurrency',
             'BLOBCol': 'TBlob', 'PickleCol': 'TPickle', 'UuidCol': 'TUuid', 'JSONCol': 'TJson',
-            'ForeignKey': 'TForeignKey'}[ctor]
+            'ForeignKey': 'TForeignKeyStr' if kw.get('to') == 'S' else 'TForeignKey'}[ctor]
 
 
 def coq_tables(t):
@@ -662,7 +705,7 @@ def coq_tables(t):
             return 'Ok (%s, %s)' % (slit(r[1]), coq_val(r[2]))
         return 'Raise %s' % coq_exn(r[1])
     return ('{| t_frepr := [%s]; t_nstore := [%s]; t_float_of := [%s]; t_float_of_int := [%s]; t_uuid := [%s]; t_b64 := [%s]; '
-            't_pickle := [%s]; t_json := [%s] |}' % (
+            't_pickle := [%s]; t_json := [%s]; t_str := [%s] |}' % (
                 '; '.join('(%s, %s)' % (nlit(b), slit(r)) for b, r in t['frepr']),
                 '; '.join('(%s, %s)' % (slit(x), nst(r)) for x, r in t['nstore']),
                 '; '.join('(%s, %s)' % (coq_val(d), nlit(f)) for d, f in t['float_of']),
@@ -670,7 +713,19 @@ def coq_tables(t):
                 '; '.join('(%s, %s)' % (nlit(n), slit(s)) for n, s in t['uuid']),
                 '; '.join('(%s, %s)' % (slit(b), slit(s)) for b, s in t['b64']),
                 '; '.join('(%s, %s, %s)' % (coq_val(v), slit(b), coq_val(w)) for v, b, w in t['pickle']),
-                '; '.join('(%s, %s)' % (coq_val(v), js(r)) for v, r in t['json'])))
+                '; '.join('(%s, %s)' % (coq_val(v), js(r)) for v, r in t['json']),
+                '; '.join('(%s, %s)' % (coq_val(v), slit(r)) for v, r in t.get('str', []))))
+
+
+def coq_norm(c):
+    if c['v'][0] in ('obj', 'objs'):
+        return 'None'
+    n = datetime_norm(c['col'], dec(c['v']))
+    if n is None:
+        return 'None'
+    if n is REJECT:
+        return '(Some (Raise E_Invalid))'
+    return '(Some (Ok %s))' % coq_val(enc(n))
 
 
 def coq_case(c, o):
@@ -682,12 +737,12 @@ def coq_case(c, o):
                coq_res_val(o.get('cache')), coq_res_val(o.get('found')), coq_res_val(o.get('foundby')),
                coq_res_val(o.get('sel')), coq_res_val(o.get('exp')), coq_res_val(o.get('fresh')),
                coq_res_val(o.get('selfresh'))))
-    return ('{| c_col := %s; c_val := %s; c_wp := %s; c_var := %s; c_decl := %s; c_indom := %s; c_kindok := %s; c_tab := %s; c_obs := %s |}' % (
+    return ('{| c_col := %s; c_val := %s; c_wp := %s; c_var := %s; c_decl := %s; c_indom := %s; c_kindok := %s; c_norm := %s; c_tab := %s; c_obs := %s |}' % (
         coq_coltype(c['col']), coq_val(c['v']),
         {'create': 'WCreate', 'setattr': 'WSetattr', 'set': 'WSet'}[c['wp']],
         {'E': 'VEager', 'N': 'VNoCache', 'L': 'VLazy'}[c['cls']],
         slit([ord(ch) for ch in (o.get('decl') or '')]), blit(in_domain(c['col'], dec(c['v']))), blit(kind_ok(c['col'], c['v'])),
-        coq_tables(o['codecs']), obs))
+        coq_norm(c), coq_tables(o['codecs']), obs))
 
 
 # ---------------------------------------------------------------- generators (values are built here, in the parent, and shipped encoded)
@@ -773,9 +828,18 @@ def g_datetime(rng, tz=False):
     return datetime.datetime(d.year, d.month, d.day, t.hour, t.minute, t.second, t.microsecond, t.tzinfo)
 
 
+def delta_space():
+    """timedeltas for a TimeCol: negative, zero, under a day (with microseconds), a day and more"""
+    import datetime
+    T = datetime.timedelta
+    return [T(seconds=-1), T(hours=-1, minutes=-30), T(days=-1), T(microseconds=-1), T(days=-2, seconds=5), T(0), T(microseconds=1),
+            T(seconds=3700, microseconds=5), T(hours=23, minutes=59, seconds=59, microseconds=999999), T(seconds=86399),
+            T(days=1), T(days=1, seconds=1), T(hours=25), T(days=400), T(hours=12), T(minutes=90, microseconds=500000)]
+
+
 def g_delta(rng):
     import datetime
-    return rng.choice([datetime.timedelta(0), datetime.timedelta(seconds=3700, microseconds=5), datetime.timedelta(days=1),
+    return rng.choice(delta_space() + [datetime.timedelta(0), datetime.timedelta(seconds=3700, microseconds=5), datetime.timedelta(days=1),
                        datetime.timedelta(days=-1, seconds=5), datetime.timedelta(seconds=86399, microseconds=999999),
                        datetime.timedelta(microseconds=1), datetime.timedelta(seconds=rng.randint(0, 86399))])
 
@@ -945,6 +1009,9 @@ def in_domain_values(col, rng, n):
             out.append(g_json(rng, 3))
         elif col == 'fk':
             out.append(rng.randint(1, N_OTHER) if rng.random() < 0.6 else ('obj', rng.randint(1, N_OTHER)))
+        elif col == 'fks':
+            r = rng.random()
+            out.append(rng.choice(STR_IDS) if r < 0.5 else ('objs', rng.choice(INST_IDS)) if r < 0.75 else g_str(rng))
     return out
 
 
@@ -973,7 +1040,7 @@ def out_domain_values(col, rng, n):
         'ts': [datetime.date(2020, 1, 2), datetime.time(1, 2, 3, 4), g_datetime(rng, True), '2020-01-02 03:04:05.5'],
         'd': [g_datetime(rng), g_datetime(rng, True), datetime.time(1, 2, 3), g_time(rng), g_time(rng, True)] + DATE_STRS,
         't': [g_datetime(rng), g_datetime(rng, True), g_time(rng, True), g_time(rng, True), datetime.date(2020, 1, 2), g_date(rng)]
-             + [g_delta(rng) for _ in range(4)] + TIME_STRS,
+             + delta_space() + TIME_STRS,
         'dec': [g_dec_wild(rng) for _ in range(8)] + [5, -3, True, 2 ** 70, 1.5, 0.1, 1e300, 1e16, 5e-324, -0.0, math.inf, math.nan]
                + DEC_STRS + [g_dec_special(rng)],
         'dec20': [g_dec_wild(rng) for _ in range(6)] + [10 ** 19 + 1, 0.1, 1e22, 1e23] + [g_dec_special(rng)],
@@ -992,6 +1059,8 @@ def out_domain_values(col, rng, n):
                {1: 'a', '1': 'b'}, '', '{"a": 1}', 'null', {'d': {'e': {'f': [1, [2, [3]]]}}}, g_uuid(rng), g_date(rng)],
         'fk': [0, 99, -1, True, False, 1.5, 2.0, math.inf, math.nan, decimal.Decimal('2.9'), decimal.Decimal('NaN'),
                decimal.Decimal('Infinity'), g_uuid(rng), 2 ** 63, 2 ** 64 + 1, b'2', b'x'] + INT_STRS,
+        'fks': [7, 42, 0, -1, True, False, 1.5, 1e22, math.nan, decimal.Decimal('1.50'), decimal.Decimal('1E+3'), b'007', b'',
+                'a\x00b', 'x\udc00', g_uuid(rng), g_date(rng), [1, 'a'], (), {'a': 1}, 2 ** 70],
     }
     out += special.get(col, [])
     for _ in range(n):
@@ -999,9 +1068,27 @@ def out_domain_values(col, rng, n):
     return out
 
 
-def mkcases(col, v, rng, combos):
-    e = ['obj', v[1]] if (isinstance(v, tuple) and len(v) == 2 and v[0] == 'obj') else enc(v)
-    return [{'col': col, 'v': e, 'wp': wp, 'cls': var} for wp, var in combos]
+def kind_samples():
+    """one or two values of every modelled Python type: each is offered to EVERY column (alternative input types)"""
+    import datetime
+    import decimal
+    import uuid
+    utc = datetime.timezone.utc
+    return [True, False, 7, -3, 0, 1.5, 2.0, 'abc', '12', '', b'abc', b'12', datetime.date(2020, 1, 2), datetime.time(1, 2, 3, 4),
+            datetime.time(1, 2, 3, 4, utc), datetime.datetime(2020, 1, 2, 3, 4, 5, 6), datetime.datetime(2020, 1, 2, 3, 4, 5, 6, utc),
+            datetime.timedelta(seconds=3700, microseconds=5), datetime.timedelta(seconds=-1), datetime.timedelta(days=2),
+            decimal.Decimal('1.5'), decimal.Decimal('7'), decimal.Decimal('-0.00'), uuid.UUID(int=12), [1], (1,), {'a': 1}]
+
+
+def mkcases(col, v, rng, combos, shape0=0):
+    if isinstance(v, tuple) and len(v) == 2 and v[0] == 'obj':
+        e = ['obj', v[1]]
+    elif isinstance(v, tuple) and len(v) == 2 and v[0] == 'objs':
+        e = ['objs', [ord(ch) for ch in v[1]]]
+    else:
+        e = enc(v)
+    return [{'col': col, 'v': e, 'wp': wp, 'cls': var, 'shape': (rng.choice(SHAPES) if rng is not None else SHAPES[(shape0 + k) % 2])}
+            for k, (wp, var) in enumerate(combos)]
 
 
 ALL_COMBOS = [(wp, var) for wp in WPATHS for var in VARIANTS]
@@ -1020,6 +1107,7 @@ def pick_combos(rng, k):
 def corpus():
     import datetime
     import decimal
+    import uuid
     out = []
     W = [
         ('dt', datetime.date(2020, 1, 2)),                     # fixed d26c1c0: was stored, unreadable
@@ -1039,10 +1127,22 @@ def corpus():
         ('dsq', decimal.Decimal('1.545')), ('ds', decimal.Decimal('1E+2')), ('t', datetime.time(23, 59, 59, 999999)),
         ('d', datetime.date(1, 1, 1)), ('dt', datetime.datetime(9999, 12, 31, 23, 59, 59, 999999)), ('f', -0.0),
         ('i', -2 ** 63), ('i', True), ('b', 2), ('fk', '2'),
+        # seed c01_fk_to_string_id_declared_int: numeric-looking ids of a string-keyed class
+        ('fks', '007'), ('fks', '42'), ('fks', '1.50'), ('fks', ('objs', '007')), ('fks', ('objs', 'abc')), ('fks', ('objs', ' 7')), ('fks', ('objs', 'x y')), ('fks', ' 7'), ('fks', '1e3'), ('fks', 7),
+        # seed c01_nocache_getter_skips_falsy_conversion: falsy stored values of every converting column type
+        ('b', False), ('dec', decimal.Decimal('0')), ('dec', decimal.Decimal('0.00')), ('cur', decimal.Decimal('-0')),
+        ('dec20', decimal.Decimal('0')), ('bl', b''), ('s', ''), ('u', ''), ('e', ''), ('i', 0), ('f', 0.0), ('fk', 0),
+        ('ds', decimal.Decimal('0')), ('dsq', decimal.Decimal('0')), ('p', 0), ('p', ''), ('p', False), ('js', 0), ('js', ''),
+        ('js', False), ('js', []), ('js', {}), ('fks', ''), ('uu', uuid.UUID(int=0)), ('t', datetime.time(0, 0)),
+        # seed c02_negative_timedelta_accepted: alternative input types of the date/time columns
+        ('t', datetime.timedelta(seconds=-1)), ('t', datetime.timedelta(hours=-1, minutes=-30)), ('t', datetime.timedelta(0)),
+        ('t', datetime.timedelta(seconds=3700, microseconds=5)), ('t', datetime.timedelta(days=1)),
+        ('t', datetime.datetime(2020, 1, 2, 3, 4, 5, 6)), ('d', datetime.datetime(2020, 1, 2, 3, 4, 5, 6)),
+        ('dt', datetime.date(2024, 2, 29)), ('b', 0), ('b', 1.5), ('f', True), ('f', 3), ('dec', 7), ('dsq', 7), ('fk', True),
+        ('fks', 42), ('i', 1.5), ('i', decimal.Decimal('7.9')), ('s', b'abc'), ('u', b'abc'), ('bl', 'abc'),
     ]
-    for col, v in W:
-        for combo in ALL_COMBOS:
-            out += mkcases(col, v, None, [combo])
+    for n, (col, v) in enumerate(W):
+        out += mkcases(col, v, None, ALL_COMBOS, shape0=n)
     return out
 
 
@@ -1056,6 +1156,12 @@ def generate(rng, tier):
         for v in out_domain_values(col, rng, n_out):
             out += mkcases(col, v, rng, pick_combos(rng, k))
         out += mkcases(col, None, rng, pick_combos(rng, 2))
+    # every value kind against every column, deterministically (write path x variant x shape rotate)
+    n = 0
+    for col in COLNAMES:
+        for v in kind_samples():
+            out += mkcases(col, v, None, [ALL_COMBOS[n % 9]] if tier == 'quick' else [ALL_COMBOS[n % 9], ALL_COMBOS[(n + 4) % 9]], shape0=n // 9)
+            n += 1
     return out
 
 
@@ -1165,6 +1271,9 @@ def in_domain(col, v):
         return json_domain(v)
     if col == 'fk':
         return (type(v) is int and INT64[0] <= v <= INT64[1]) or (isinstance(v, tuple) and len(v) == 2 and v[0] == 'obj')
+    if col == 'fks':
+        return (type(v) is str and not has_bad_cp(v)) or (isinstance(v, tuple) and len(v) == 2 and v[0] == 'objs'
+                                                           and not has_bad_cp(v[1]))
     return False
 
 
@@ -1174,9 +1283,10 @@ READS = ['cache', 'sel', 'exp', 'fresh', 'selfresh']
 def oracle(c, o):
     v = dec(c['v'])
     col = c['col']
-    expect = v[1] if (isinstance(v, tuple) and len(v) == 2 and v[0] == 'obj') else v
+    expect = v[1] if (isinstance(v, tuple) and len(v) == 2 and v[0] in ('obj', 'objs')) else v
     w_ok = o['w'] == ['ok']
-    desc = '%s <- %r by %s on the %s variant' % (col, v, c['wp'], {'E': 'eager', 'N': 'cacheValues=False', 'L': 'lazyUpdate'}[c['cls']])
+    desc = '%s <- %r by %s on the %s variant%s' % (col, v, c['wp'], {'E': 'eager', 'N': 'cacheValues=False', 'L': 'lazyUpdate'}[c['cls']],
+                                                     ' (plain subclass of a plain class)' if c.get('shape') == 'S' else '')
     if in_domain(col, v):
         if not w_ok:
             return {'what': 'in-domain value refused: %s raised %s' % (desc, o['w'][1]), 'kind': 'refused'}
@@ -1197,6 +1307,10 @@ def oracle(c, o):
                 return {'what': '%s: the equality query (%s) does not find the row: %r' % (desc, q, o.get(q)), 'kind': 'query'}
         return None
     # any other value: rejected with nothing stored, or identical on every read path
+    norm = documented_norm(col, v) if not (isinstance(v, tuple) and v and v[0] in ('obj', 'objs')) else None
+    if w_ok and norm is REJECT:
+        return {'what': 'a value the column cannot represent was accepted: %s, the row holds %r and reads as %r' % (
+            desc, o.get('raw'), (o.get('fresh') or [None, None])[1]), 'kind': 'accepted-unrepresentable'}
     if not w_ok:
         stored = o.get('rows_added') if c['wp'] == 'create' else (1 if o.get('raw') not in (None, ['null']) else 0)
         if stored:
@@ -1214,9 +1328,64 @@ def oracle(c, o):
         if not py_equal(vals[0][1], x):
             return {'what': 'accepted value reads differently: %s, %s gives %r but %s gives %r' % (
                 desc, vals[0][0], vals[0][1], name, x), 'kind': 'inconsistent', 'expected': repr(vals[0][1]), 'actual': repr(x)}
+    if norm is not None and norm is not REJECT:
+        for name, x in vals:
+            if not py_equal(x, norm):
+                return {'what': 'accepted value normalised wrongly: %s, read path %s gives %r, expected %r' % (desc, name, x, norm),
+                        'kind': 'misnormalised', 'expected': repr(norm), 'actual': repr(x)}
     for q in ('found', 'foundby'):
         if o.get(q) != ['ok', ['bool', 1]]:
             return {'what': '%s: the equality query (%s) does not find the row: %r' % (desc, q, o.get(q)), 'kind': 'query'}
+    return None
+
+
+# ---------------------------------------------------------------- documented normalisation of alternative input types
+REJECT = ('reject',)
+
+
+def time_of_delta(v):
+    import datetime
+    if v.days != 0:
+        return REJECT            # negative, or a day or more: not a time of day
+    s = v.seconds
+    return datetime.time(s // 3600, (s // 60) % 60, s % 60, v.microseconds)
+
+
+def datetime_norm(col, v):
+    """date/time crossings (mirrors Model/Columns.v norm_spec): the value every read must return, REJECT, or None"""
+    import datetime
+    if col == 't' and type(v) is datetime.timedelta:
+        return time_of_delta(v)
+    if col == 't' and type(v) is datetime.datetime:
+        return v.time()
+    if col == 'd' and type(v) is datetime.datetime:
+        return v.date()
+    if col in ('dt', 'ts') and type(v) is datetime.date:
+        return datetime.datetime(v.year, v.month, v.day)
+    return None
+
+
+def documented_norm(col, v):
+    """What an accepted value of another type must read back as (== comparison), where the conversion is
+    value-preserving and therefore not a matter of taste; REJECT where no such value exists; None = unspecified."""
+    import decimal
+    n = datetime_norm(col, v)
+    if n is not None:
+        return n
+    if col in ('i', 'ti', 'si', 'mi', 'bi') and type(v) is bool:
+        return int(v)
+    if col == 'b' and type(v) in (int, float):
+        return bool(v)
+    if col == 'f' and type(v) in (int, bool) and abs(int(v)) <= 2 ** 53:
+        return float(v)
+    if col in ('dec', 'dec20', 'cur', 'ds', 'dsq') and type(v) is int and abs(v) < 10 ** 4:
+        return decimal.Decimal(v)
+    if col == 'fk' and type(v) is bool:
+        return int(v)
+    if col == 'fk' and type(v) is str and v.isascii() and v.isdigit() and len(v) < 18:
+        return int(v)
+    if col == 'fks' and type(v) is int and type(v) is not bool:
+        return str(v)
     return None
 
 
@@ -1289,6 +1458,7 @@ def classify(c, o, f):
     col, kind = c['col'], c['v'][0]
     fk = f.get('kind')
     v = dec(c['v'])
+    # (string_id_instance_unquoted is fixed: a query by a string-keyed instance that misses the row is a violation)
     # (date_time_kind_unreadable is fixed: a wrong-kind date/time object failing now is a violation)
     if not kind_ok(col, c['v']):
         # tzinfo silently dropped: the writer keeps the aware value, the row the naive text
@@ -1333,17 +1503,18 @@ def nontrivial(c, o):
 
 
 def key(c):
-    return [c['col'], c['v'], c['wp'], c['cls']]
+    return [c['col'], c['v'], c['wp'], c['cls'], c.get('shape', 'P')]
 
 
 def distribution(cases, obs):
-    d = {'by_column': {}, 'by_kind': {}, 'by_write_path': {}, 'by_variant': {}, 'in_domain': 0, 'out_of_domain': 0,
+    d = {'by_column': {}, 'by_kind': {}, 'by_write_path': {}, 'by_variant': {}, 'by_class_shape': {}, 'in_domain': 0, 'out_of_domain': 0,
          'refused': 0, 'refused_by': {}, 'stored_as': {}}
     for c, o in zip(cases, obs):
         d['by_column'][c['col']] = d['by_column'].get(c['col'], 0) + 1
         d['by_kind'][c['v'][0]] = d['by_kind'].get(c['v'][0], 0) + 1
         d['by_write_path'][c['wp']] = d['by_write_path'].get(c['wp'], 0) + 1
         d['by_variant'][c['cls']] = d['by_variant'].get(c['cls'], 0) + 1
+        d['by_class_shape'][c.get('shape', 'P')] = d['by_class_shape'].get(c.get('shape', 'P'), 0) + 1
         try:
             ind = in_domain(c['col'], dec(c['v']))
         except Exception:
